@@ -1,4 +1,6 @@
 mod enumerate;
+mod explore;
+mod lex;
 mod props;
 mod report;
 mod util;
